@@ -136,8 +136,11 @@ SHARED = {}
 
 def bundle(b, name, shared):
     """-> (openapi.annotate kwargs, openrpc.annotate kwargs, user objects to snapshot)"""
-    if b == 'none':
+    if b in ('none', 'pep702', 'samequal-a', 'samequal-b'):
         return None, None, []
+    if b == 'schemas-unset':
+        cd = [openrpc.ContentDescriptor(name='a', schema={'type': 'integer'}), openrpc.ContentDescriptor(name='b', schema={'type': 'string'})]
+        return None, dict(params_schema=cd), [cd]
     if b == 'errors':
         e1 = [exceptions.MethodNotFoundError, exceptions.InvalidParamsError]
         e2 = [exceptions.MethodNotFoundError, exceptions.InvalidParamsError]
@@ -182,7 +185,10 @@ CORE = [
     ('s1', 'none', 'dnumpy'), ('s5', 'none', 'dbare'),
 ]
 # further atoms, combined with each other and with a few core atoms only (set 'corex' = CORE + EXTRA)
-EXTRA = [('s1', 'errsame-a', None), ('s5', 'errsame-b', None), ('s7', 'none', None), ('s7', 'errors', 'dparams')]
+EXTRA = [('s1', 'errsame-a', None), ('s5', 'errsame-b', None), ('s7', 'none', None), ('s7', 'errors', 'dparams'),
+         # a content descriptor that leaves `required` unset; a handler carrying the PEP 702 marker (__deprecated__ holds the MESSAGE);
+         # two handlers made by one factory: same __module__ and __qualname__, different docstrings and signatures
+         ('s1', 'schemas-unset', None), ('s1', 'pep702', None), ('s4', 'samequal-a', 'dparams'), ('s5', 'samequal-b', 'draises')]
 COREX = CORE + EXTRA
 MAY_REFUSE = {'s7'}          # signatures an extractor may refuse to describe (generation raising is accepted for them)
 FULL = [(s, b, None) for s in ('s0', 's1', 's2', 's3', 's4', 's5', 's6') for b in ('none', 'errors', 'shared', 'tags', 'examples', 'prefix', 'misc', 'schemas')] + \
@@ -208,6 +214,10 @@ def build_methods(atoms):
     for i, (sig, b, doc) in enumerate(atoms):
         name = 'm%d_%s_%s' % (i, sig, b)
         f = sig_fn(sig, name, DOCSTRINGS.get(doc))
+        if b == 'pep702':
+            f.__deprecated__ = 'use another method instead'
+        if b.startswith('samequal'):
+            f.__qualname__ = 'make_handler.<locals>.handler'
         oa, orpc, objs = bundle(b, name, shared)
         if oa is not None:
             f = openapi.annotate(**oa)(f)
